@@ -121,6 +121,7 @@ Theorem C25_source_facts :
   gen_handler_release_sites = [("Handler.handleMetadata", 1); ("Handler.releaseSession", 2)]%string /\
   gen_release_guarded_by_released_flag = true /\
   gen_start_failure_releases_before_session_recorded = true /\
+  gen_password_rejected_on_any_bcrypt_error = true /\
   gen_shell_config_literals = 1 /\
   forallb (fun '(field, expr) => String.eqb expr ("a.cfg.Shell." ++ field)) gen_shell_config_wiring = true /\
   map fst gen_shell_config_wiring = ["Enabled"; "Whitelist"; "PasswordHash"; "Timeout"; "MaxSessions"]%string /\
